@@ -197,7 +197,9 @@ def prop_map(case):
     from kyupy.sim import SimOps
     if 'big' in case:
         from vk import bigcirc
-        if case.get('shape') == 'rand':
+        if case.get('shape') == 'ladder':
+            c, _ = bigcirc.forkladder(case['big'], 1, 1)
+        elif case.get('shape') == 'rand':
             n_in = case['big'][0]
             c, _ = bigcirc.randnet(*case['big'], [1] * n_in, 1)
         elif case.get('shape') == 'grid':
@@ -315,6 +317,7 @@ def enum_bigmap(tier):
     yield dict(big=35000, caps=4, cmin=4, c_reuse=True, strip_forks=True)
     yield dict(big=(24, 320), shape='grid', caps=1, cmin=1, c_reuse=True, strip_forks=False)
     yield dict(big=(8, 9000, 24, 60, 1), shape='rand', caps=[1, 2, 1, 4, 3], cmin=1, c_reuse=True, strip_forks=False)
+    yield dict(big=1500, shape='ladder', caps=4, cmin=1, c_reuse=True, strip_forks=True)
     if tier == 'thorough':
         yield dict(big=70000, caps=1, cmin=1, c_reuse=True, strip_forks=True)
         yield dict(big=6000, caps=[4, 8, 4, 16], cmin=4, c_reuse=True, strip_forks=False)
